@@ -238,8 +238,6 @@ def run(selected):
         finally:
             shutil.rmtree(tmp, ignore_errors=True)
             # replay files written for the mutant are not evidence about the real tree
-    for fn in os.listdir(os.path.join(VERIF, "replays")):
-        pass
     return results
 
 
